@@ -124,6 +124,33 @@ def observable(state):
         w = getattr(p, 'witness', None)
         if w is not None and 'InputHash' in getattr(w, 'fields', {}):
             o.append(z3.URem(stubs.wit_big(None, w.fields['InputHash']), stubs.bvval(stubs.BN254_R, stubs.BIG)))
+        # the private part of the witness the proof was made from: a proof answers "this batch is valid", so the batch it was made
+        # from must be the request's own (a memoised proof is fine exactly when the path forces the two batches to be equal)
+        if w is not None:
+            def leaves(v, d=0):
+                if d > 6:
+                    return
+                if isinstance(v, stubs.Iface):
+                    v = v.v
+                if isinstance(v, stubs.Big):
+                    o.append(v.v)
+                elif z3.is_expr(v):
+                    o.append(v)
+                elif isinstance(v, (stubs.Struct,)):
+                    for x in v.f:
+                        leaves(x, d + 1)
+                elif isinstance(v, (stubs.Array,)):
+                    for x in v.e:
+                        leaves(x, d + 1)
+                elif isinstance(v, (list, tuple)):
+                    for x in v:
+                        leaves(x, d + 1)
+            for k in sorted(getattr(w, 'fields', {})):
+                if k != 'InputHash':
+                    try:
+                        leaves(w.fields[k])
+                    except Exception:  # noqa
+                        pass
     return o
 
 
@@ -142,7 +169,7 @@ def noninterference(pc, obs):
     s.set('timeout', 60000)
     for c in pc:
         s.add(c, z3.substitute(c, *sub))
-    s.add(z3.Or(*[t != z3.substitute(t, *sub) for t in obs]))
+    s.add(z3.Or(*[t != z3.substitute(t, *sub) for t in obs if z3.is_expr(t)]))
     t0 = time.time()
     r = str(s.check())
     return r, time.time() - t0, dep
